@@ -2,7 +2,7 @@
 From Coq Require Import List NArith ZArith.
 From N0 Require Import Base.PyStr Base.PyVal Xpath.Dec Xpath.DecProofs Xpath.Token Xpath.TokenProofs
   Xpath.Find Xpath.FindProofs Xpath.Write Xpath.SpecProofs Xpath.WalkProofs Xpath.TokenizeProofs Xpath.EnumProofs
-  Xpath.FstrProofs Xpath.FanoutProofs Xpath.PredProofs.
+  Xpath.FstrProofs Xpath.FanoutProofs Xpath.PredProofs Xpath.PredOpsProofs.
 Import ListNotations.
 
 (* For a list of dict records reached by a concrete path P, 'P/[*]/f' returns the values
@@ -68,6 +68,34 @@ Theorem C06_predicate_eq_step :
   Ok (root, fanout_result re rl dflt (flat_map (sel_list (rec_select k f v)) (r0 :: items))).
 Proof. exact pred_lookup. Qed.
 Print Assumptions C06_predicate_eq_step.
+
+(* The three operators of the statement, for the step spelling 'P/[k op v]/f': '=' selects the records whose k
+   equals v, '!=' those whose k differs (records without k select nothing), '~' those whose k contains v
+   (pred_test: lit_eq, its negation, lit_in); same conclusion as above. *)
+Theorem C06_predicate_ops_step :
+  forall o fuel root x re rl dflt toks p c r0 items segs y fk k f v,
+  keys_good root ->
+  has_path_char x = true -> tokenize x = toks ++ [y; fk] ->
+  walks root toks p (Lst c (r0 :: items)) segs ->
+  split_name_index y = Ok ([], IdxPred k (op_str o) (PvStr v)) -> pstr_eqb k s_text = false -> clean_lit_ops v ->
+  split_name_index fk = Ok (f, IdxNone) -> plain_key f ->
+  all_selectable_op o k f v (r0 :: items) ->
+  2 * length toks + 2 * (length segs + 1) + 10 <= fuel ->
+  dict_get_core fuel root x re rl dflt =
+  Ok (root, fanout_result re rl dflt (flat_map (sel_list (rec_select_op o k f v)) (r0 :: items))).
+Proof. exact pred_lookup_op. Qed.
+Print Assumptions C06_predicate_ops_step.
+
+Theorem C06_predicate_ops_nonvacuous :
+  clean_lit_ops [97]%N /\
+  all_selectable_op OpNe [107]%N [102]%N [97]%N pr_recs /\ all_selectable_op OpHas [107]%N [102]%N [97]%N pr_recs /\
+  flat_map (sel_list (rec_select_op OpNe [107]%N [102]%N [97]%N)) pr_recs = [Leaf (SInt 2)] /\
+  flat_map (sel_list (rec_select_op OpHas [107]%N [102]%N [97]%N)) pr_recs = [Leaf (SInt 1); Leaf (SInt 3)] /\
+  dict_get_core (fuel_for pr_root pr_x_ne) pr_root pr_x_ne true true LDefault = Ok (pr_root, LVal (Lst true [Leaf (SInt 2)])) /\
+  dict_get_core (fuel_for pr_root pr_x_has) pr_root pr_x_has true true LDefault
+  = Ok (pr_root, LVal (Lst true [Leaf (SInt 1); Leaf (SInt 3)])).
+Proof. exact pred_ops_example. Qed.
+Print Assumptions C06_predicate_ops_nonvacuous.
 
 (* non-vacuity: r[k=a]/f on four records selects the f of the two whose k is "a" *)
 Theorem C06_predicate_nonvacuous :
